@@ -156,8 +156,8 @@ def obligations(tier):
                   "every initial factor is a proximal-operator output", assumptions=lambda I: [R <= n for n in dims(len(I["X"].shape))] if I["_S"].name == "sym" else [])
         # admm: every exit returns the prox output as primal variable
         # (the specification reaches admm as given by the caller: scalar, per-mode dict, per-mode list - the mode is selected by `order`)
-        for spec_name, spec in (("scalar", dict(simplex=1.0)), ("dict on the mode only", dict(simplex={1: 1.0})), ("list with holes", dict(non_negative=[None, True, None])),
-                                ("dict, other modes differently constrained", dict(simplex={1: 1.0}, non_negative={2: True}))):
+        for spec_name, spec in ((("scalar", dict(simplex=1.0)), ("dict on the mode only", dict(simplex={1: 1.0})), ("list with holes", dict(non_negative=[None, True, None])),
+                                 ("dict, other modes differently constrained", dict(simplex={1: 1.0}, non_negative={2: True}))) if N == 3 else ()):   # (admm does not depend on the order: once)
             for n_inner in (1, 2):
                 def setup(S):
                     n = atom("n")
